@@ -141,3 +141,30 @@ Theorem C01_concurrent_compaction_refuted :
   restart_racy N N rapply rsnap rload rinit racy_hist 1 (fun _ => 0%nat) KConfig = 7%N /\
   restart_racy N N rapply rsnap rload rinit racy_hist 1 (fun c => match c with KConfig => 1%nat | _ => 0%nat end) KConfig = 9%N.
 Proof. exact concurrent_compaction_double_applies. Qed.
+
+(** Partial coverage of that race: on every REPLAY-IDEMPOTENT component (re-applying a block of
+    messages to a state that has just applied it changes nothing observable) the restart is
+    still exact, however far each component's records ran ahead of the header's last_index. *)
+Theorem C01_restart_racy_idempotent :
+  forall (S M : Type)
+         (capply : comp -> S -> M -> S) (csnap : comp -> S -> list record)
+         (cload : comp -> load_msg -> S -> record -> S) (cinit : comp -> S)
+         (ceq : comp -> S -> S -> Prop),
+    (forall c s, ceq c s s) ->
+    (forall c s1 s2 s3, ceq c s1 s2 -> ceq c s2 s3 -> ceq c s1 s3) ->
+    (forall c s1 s2 m, ceq c s1 s2 -> ceq c (capply c s1 m) (capply c s2 m)) ->
+    (forall c s r, In r (csnap c s) -> routed_to c (rtree r) (rkey r)) ->
+    (forall c s, ceq c (fold_left (cload_routed S cload c) (csnap c s) (cinit c)) s) ->
+    forall (hist : list (entry M)) (k : nat) (j : comp -> nat) (c : comp),
+      replay_idempotent S M capply ceq c ->
+      ceq c (restart_racy S M capply csnap cload cinit hist k j c)
+            (run S M capply hist (init_node S cinit) c).
+Proof. exact restart_racy_idempotent. Qed.
+
+(** last-write-wins key-value components (tables, config contents, namespaces by id) are
+    replay-idempotent; an accumulating register (sequence counter, history list) is not *)
+Theorem C01_replay_idempotence_instances :
+  (forall c, replay_idempotent kvstate kvmsg kapply keq c) /\
+  (forall c s1 s2 m, keq c s1 s2 -> keq c (kapply c s1 m) (kapply c s2 m)) /\
+  ~ replay_idempotent N N rapply req_ KConfig.
+Proof. exact (conj kv_replay_idempotent (conj keq_apply_cong reg_not_replay_idempotent)). Qed.
